@@ -307,6 +307,11 @@ pub fn gen_cfg(id: &str, tier: Tier, variant: u64) -> GenCfg {
         "C06" => {
             g.dact_pct = 15;
         }
+        // "any history": also what destructors do (downgrade / clone / drop of the
+        // handles they own, nested collections)
+        "C02" => {
+            g.dact_pct = 25;
+        }
         "C10" => {
             g.dact_pct = 60;
             // a destructor may rescue a stored handle to an outsider by cloning it
